@@ -82,6 +82,13 @@ pub(crate) fn remove_syntactic_sugar(
         if body.contains_anonymous_component(Some(reports)) {
             continue;
         }
+        // An assignment to something which is not a variable (e.g. `x + 1 <== y`)
+        // is parsed as a multi-substitution. Without tuples it cannot be desugared
+        // (or lifted), so we report it in the same way as for templates.
+        if let Err(report) = remove_tuples_from_statement(body.clone()) {
+            reports.push(*report);
+            continue;
+        }
         new_functions.insert(name.clone(), function.clone());
     }
     (new_templates, new_functions)
